@@ -13,7 +13,8 @@ Assumed numpy behaviour (observed on numpy 2.5.3; listed as axioms in the eviden
   * a.view("U<w>") regroups w consecutive uint32 values into one string; s.view(uint32) is the inverse
   * astype("U<k>") with k >= w pads every string with NULs, k < w TRUNCATES (an obligation here)
   * numpy.dtype(fields): field names must be pairwise different non-empty strings (after stripping trailing NULs:
-    an empty name is silently replaced by 'f0'); a code point above 0x10FFFF raises (SystemError / ValueError)
+    an empty name is silently replaced by 'f0'); a code point above 0x10FFFF raises SystemError in a one-character name and
+    is accepted (or raises) in a longer one
 """
 from __future__ import annotations
 import z3
@@ -288,8 +289,13 @@ def install(reg):
                 ex.oblige(f"pre({site}).one_field_per_key", a.n == n, "precondition", node)
                 valid = ctx.forall_range(0, n, lambda t: ctx.forall_range(0, w, lambda d: z3.And(0 <= cp(t, d), cp(t, d) <= MAXCP)))
                 if not ex.decide(valid, "dtype.valid_code_points"):
+                    # observed (numpy 2.5.3): a ONE-character field name with a code point above 0x10FFFF raises SystemError ("invalid
+                    # maximum character"); in a longer name such a code point is accepted - the name is kept as numpy.str_ and never
+                    # becomes a Python str.  Both outcomes are modelled for w >= 2.
                     from .sx import RaiseSig
-                    raise RaiseSig("SystemError", node, "field name with a code point above 0x10FFFF")
+                    single = (w == 1) if isinstance(w, int) else ex.decide(w == 1, "dtype.single_character_names")
+                    if single or ex.choice(2, "dtype.code_point_above_the_unicode_range") == 0:
+                        raise RaiseSig("SystemError", node, "field name with a code point above 0x10FFFF")
                 ex.oblige(f"pre({site}).field_names_non_empty", ctx.forall_range(0, n, lambda t: z3.Not(
                     ctx.forall_range(0, w, lambda d: cp(t, d) == 0))), "precondition", node,
                     note="numpy silently renames an empty field name to 'f0'")
